@@ -4,15 +4,37 @@ against; re-proved against the facts regenerated from /repo on every run). -/
 namespace Tally.Tie.C11Frozen
 open Tally
 
+theorem body_tally__NewTestScope_unchanged : Facts.body_tally__NewTestScope = ["func( prefix string, tags map[string]string, ) TestScope", "return newRootScope(ScopeOptions{ Prefix: prefix, Tags: tags, testScope: true, }, 0)"] := rfl
+
 theorem body_tally__newSnapshot_unchanged : Facts.body_tally__newSnapshot = ["func() *snapshot", "return &snapshot{ counters: make(map[string]CounterSnapshot), gauges: make(map[string]GaugeSnapshot), timers: make(map[string]TimerSnapshot), histograms: make(map[string]HistogramSnapshot), }"] := rfl
 
 theorem body_tally_counter_snapshot_unchanged : Facts.body_tally_counter_snapshot = ["func() int64", "return atomic.LoadInt64(&c.curr)"] := rfl
 
+theorem body_tally_counterSnapshot_Name_unchanged : Facts.body_tally_counterSnapshot_Name = ["func() string", "return s.name"] := rfl
+
+theorem body_tally_counterSnapshot_Tags_unchanged : Facts.body_tally_counterSnapshot_Tags = ["func() map[string]string", "return s.tags"] := rfl
+
+theorem body_tally_counterSnapshot_Value_unchanged : Facts.body_tally_counterSnapshot_Value = ["func() int64", "return s.value"] := rfl
+
 theorem body_tally_gauge_snapshot_unchanged : Facts.body_tally_gauge_snapshot = ["func() float64", "return math.Float64frombits(atomic.LoadUint64(&g.curr))"] := rfl
+
+theorem body_tally_gaugeSnapshot_Name_unchanged : Facts.body_tally_gaugeSnapshot_Name = ["func() string", "return s.name"] := rfl
+
+theorem body_tally_gaugeSnapshot_Tags_unchanged : Facts.body_tally_gaugeSnapshot_Tags = ["func() map[string]string", "return s.tags"] := rfl
+
+theorem body_tally_gaugeSnapshot_Value_unchanged : Facts.body_tally_gaugeSnapshot_Value = ["func() float64", "return s.value"] := rfl
 
 theorem body_tally_histogram_snapshotDurations_unchanged : Facts.body_tally_histogram_snapshotDurations = ["func() map[time.Duration]int64", "if h.htype != durationHistogramType { return nil }", "durations := make(map[time.Duration]int64, len(h.buckets))", "for i, _ := range h.buckets", "| durations[h.buckets[i].durationUpperBound] += h.samples[i].counter.snapshot()", "return durations"] := rfl
 
 theorem body_tally_histogram_snapshotValues_unchanged : Facts.body_tally_histogram_snapshotValues = ["func() map[float64]int64", "if h.htype != valueHistogramType { return nil }", "vals := make(map[float64]int64, len(h.buckets))", "for i, _ := range h.buckets", "| vals[h.buckets[i].valueUpperBound] += h.samples[i].counter.snapshot()", "return vals"] := rfl
+
+theorem body_tally_histogramSnapshot_Durations_unchanged : Facts.body_tally_histogramSnapshot_Durations = ["func() map[time.Duration]int64", "return s.durations"] := rfl
+
+theorem body_tally_histogramSnapshot_Name_unchanged : Facts.body_tally_histogramSnapshot_Name = ["func() string", "return s.name"] := rfl
+
+theorem body_tally_histogramSnapshot_Tags_unchanged : Facts.body_tally_histogramSnapshot_Tags = ["func() map[string]string", "return s.tags"] := rfl
+
+theorem body_tally_histogramSnapshot_Values_unchanged : Facts.body_tally_histogramSnapshot_Values = ["func() map[float64]int64", "return s.values"] := rfl
 
 theorem body_tally_scope_Snapshot_unchanged : Facts.body_tally_scope_Snapshot = ["func() Snapshot", "snap := newSnapshot()", "s.registry.ForEachScope(func(ss *scope) { tags := make(map[string]string, len(s.tags)) for k, v := range ss.tags { tags[k] = v } ss.cm.RLock() for key, c := range ss.counters { name := ss.fullyQualifiedName(key) id := KeyForPrefixedStringMap(name, tags) snap.counters[id] = &counterSnapshot{ name: name, tags: tags, value: c.snapshot(), } } ss.cm.RUnlock() ss.gm.RLock() for key, g := range ss.gauges { name := ss.fullyQualifiedName(key) id := KeyForPrefixedStringMap(name, tags) snap.gauges[id] = &gaugeSnapshot{ name: name, tags: tags, value: g.snapshot(), } } ss.gm.RUnlock() ss.tm.RLock() for key, t := range ss.timers { name := ss.fullyQualifiedName(key) id := KeyForPrefixedStringMap(name, tags) snap.timers[id] = &timerSnapshot{ name: name, tags: tags, values: t.snapshot(), } } ss.tm.RUnlock() ss.hm.RLock() for key, h := range ss.histograms { name := ss.fullyQualifiedName(key) id := KeyForPrefixedStringMap(name, tags) snap.histograms[id] = &histogramSnapshot{ name: name, tags: tags, values: h.snapshotValues(), durations: h.snapshotDurations(), } } ss.hm.RUnlock() })", "return snap"] := rfl
 
@@ -27,5 +49,11 @@ theorem body_tally_snapshot_Histograms_unchanged : Facts.body_tally_snapshot_His
 theorem body_tally_snapshot_Timers_unchanged : Facts.body_tally_snapshot_Timers = ["func() map[string]TimerSnapshot", "return s.timers"] := rfl
 
 theorem body_tally_timer_snapshot_unchanged : Facts.body_tally_timer_snapshot = ["func() []time.Duration", "t.unreported.RLock()", "snap := make([]time.Duration, len(t.unreported.values))", "copy(snap, t.unreported.values)", "t.unreported.RUnlock()", "return snap"] := rfl
+
+theorem body_tally_timerSnapshot_Name_unchanged : Facts.body_tally_timerSnapshot_Name = ["func() string", "return s.name"] := rfl
+
+theorem body_tally_timerSnapshot_Tags_unchanged : Facts.body_tally_timerSnapshot_Tags = ["func() map[string]string", "return s.tags"] := rfl
+
+theorem body_tally_timerSnapshot_Values_unchanged : Facts.body_tally_timerSnapshot_Values = ["func() []time.Duration", "return s.values"] := rfl
 
 end Tally.Tie.C11Frozen
